@@ -63,18 +63,36 @@ theorem strictMonoOn_of_inner {F g : ℝ → ℝ} {N M : ℝ} (hM : 0 < M)
 theorem hasDerivAt_div_const' (M i : ℝ) : HasDerivAt (fun j : ℝ => j / M) (1 / M) i := by
   simpa using (hasDerivAt_id i).div_const M
 
+/-- chain rule for the normalised index: `d/di g(i/M) = g'(i/M)/M` -/
+theorem hasDerivAt_comp_div {g : ℝ → ℝ} {M i D : ℝ} (hg : HasDerivAt g D (i / M)) :
+    HasDerivAt (fun j : ℝ => g (j / M)) (D / M) i := by
+  have hc : HasDerivAt (fun j : ℝ => g (j / M)) (D * (1 / M)) i :=
+    HasDerivAt.comp i hg (hasDerivAt_div_const' M i)
+  refine hc.congr_deriv ?_; ring
+
 /-- derivative in the index `i` of a function that near `i` is `g (· / M)` -/
 theorem hasDerivAt_of_inner {F g : ℝ → ℝ} {M i D lo hi : ℝ} (hlo : lo < i) (hhi : i < hi)
     (hFg : ∀ j, lo ≤ j → j ≤ hi → F j = g (j / M)) (hg : HasDerivAt g D (i / M)) :
     HasDerivAt F (D / M) i := by
-  have hc : HasDerivAt (fun j : ℝ => g (j / M)) (D * (1 / M)) i :=
-    HasDerivAt.comp i hg (hasDerivAt_div_const' M i)
-  have hc' : HasDerivAt (fun j : ℝ => g (j / M)) (D / M) i := by
-    refine hc.congr_deriv ?_; ring
+  have hc' : HasDerivAt (fun j : ℝ => g (j / M)) (D / M) i := hasDerivAt_comp_div hg
   refine hc'.congr_of_eventuallyEq ?_
   have hmem : Ioo lo hi ∈ nhds i := Ioo_mem_nhds hlo hhi
   filter_upwards [hmem] with j hj
   exact hFg j hj.1.le hj.2.le
+
+/-- two-sided derivative of a piecewise function at a joint `a`: `f = g` on `[c,a]`, `f = h` on `[a,b]`, both pieces
+    having the same derivative `d` at `a` -/
+theorem hasDerivAt_glue {f g h : ℝ → ℝ} {a b c d : ℝ} (hca : c < a) (hab : a < b)
+    (hl : ∀ x, c ≤ x → x ≤ a → f x = g x) (hr : ∀ x, a ≤ x → x ≤ b → f x = h x)
+    (hg : HasDerivAt g d a) (hh : HasDerivAt h d a) : HasDerivAt f d a := by
+  rw [← hasDerivWithinAt_univ, ← Iic_union_Ici (a := a)]
+  apply HasDerivWithinAt.union
+  · refine hg.hasDerivWithinAt.congr_of_eventuallyEq ?_ (hl a hca.le le_rfl)
+    filter_upwards [Icc_mem_nhdsLE hca] with x hx
+    exact hl x hx.1 hx.2
+  · refine hh.hasDerivWithinAt.congr_of_eventuallyEq ?_ (hr a le_rfl hab.le)
+    filter_upwards [Icc_mem_nhdsGE hab] with x hx
+    exact hr x hx.1 hx.2
 
 /-- √u − √v ≥ (u − v)/(2√X) for 0 ≤ v ≤ u ≤ X -/
 theorem sqrt_sub_ge (u v X : ℝ) (hv : 0 ≤ v) (hvu : v ≤ u) (huX : u ≤ X) :
@@ -92,6 +110,18 @@ theorem pos_of_mul_pos_right {a c : ℝ} (hc : 0 ≤ c) (h : 0 < a * c) : 0 < a 
   by_contra hneg
   have := mul_nonpos_of_nonpos_of_nonneg (not_lt.mp hneg) hc
   linarith
+
+/-! concrete square roots for the numerical witnesses -/
+theorem sqrt_of_sq {x y : ℝ} (hy : 0 ≤ y) (h : x = y ^ 2) : √x = y := by rw [h]; exact Real.sqrt_sq hy
+theorem sqrt_4 : √(4 : ℝ) = 2 := sqrt_of_sq (by norm_num) (by norm_num)
+theorem sqrt_9 : √(9 : ℝ) = 3 := sqrt_of_sq (by norm_num) (by norm_num)
+theorem sqrt_16 : √(16 : ℝ) = 4 := sqrt_of_sq (by norm_num) (by norm_num)
+theorem sqrt_25 : √(25 : ℝ) = 5 := sqrt_of_sq (by norm_num) (by norm_num)
+theorem sqrt_36 : √(36 : ℝ) = 6 := sqrt_of_sq (by norm_num) (by norm_num)
+theorem sqrt_100 : √(100 : ℝ) = 10 := sqrt_of_sq (by norm_num) (by norm_num)
+theorem sqrt_9_25 : √((9 : ℝ) / 25) = 3 / 5 := sqrt_of_sq (by norm_num) (by norm_num)
+theorem sqrt_16_25 : √((16 : ℝ) / 25) = 4 / 5 := sqrt_of_sq (by norm_num) (by norm_num)
+theorem sqrt_9_100 : √((9 : ℝ) / 100) = 3 / 10 := sqrt_of_sq (by norm_num) (by norm_num)
 
 /-- the log identity behind `monoConcave N − length = constraint` -/
 theorem log_one_sub_div (N M r : ℝ) (hN : 0 < N) (hM : 0 < M) (hr : 0 < r) :
@@ -206,6 +236,43 @@ theorem cvx_strictMonoOn (dl du X L e : ℝ) (he : e ≤ 1 / 8) (hX : 0 < X) (hd
     rw [(cvx_hasDeriv dl du X L x).deriv]
     exact cvx'_pos dl du X L e x he hX hdl hdu hL hguard hx.1.le hx.2.le
 
+/-- the piecewise function (linear continuation below 0) is differentiable at index 0 with gradient `d_lower / N_norm` -/
+theorem monoConvex_hasDerivAt_zero (L N M dl du : ℝ) (hN : 0 < N) :
+    HasDerivAt (Gen.R.PolSpacing.monoConvex L N M dl du) (dl / M) 0 := by
+  refine hasDerivAt_glue (c := -1) (b := N) (g := fun i => dl * (i / M))
+    (h := fun i => cvx dl du (N / M) L (i / M)) (by norm_num) hN ?_ ?_ ?_ ?_
+  · intro x _ hx
+    rcases hx.lt_or_eq with h | h
+    · exact monoConvex_below L N M dl du x hN.le h
+    · subst h
+      rw [monoConvex_inner L N M dl du 0 le_rfl hN.le]
+      simp [cvx_zero]
+  · intro x h0 hx
+    exact monoConvex_inner L N M dl du x h0 hx
+  · have h := (hasDerivAt_div_const' M 0).const_mul dl
+    refine h.congr_deriv ?_; ring
+  · have h := hasDerivAt_comp_div (M := M) (i := 0) (cvx_hasDeriv dl du (N / M) L (0 / M))
+    rwa [zero_div, cvx'_zero] at h
+
+/-- … and at index N (linear continuation above N) with gradient `d_upper / N_norm` -/
+theorem monoConvex_hasDerivAt_N (L N M dl du : ℝ) (hN : 0 < N) (hM : 0 < M) :
+    HasDerivAt (Gen.R.PolSpacing.monoConvex L N M dl du) (du / M) N := by
+  have hX : N / M ≠ 0 := (div_pos hN hM).ne'
+  refine hasDerivAt_glue (c := 0) (b := N + 1) (g := fun i => cvx dl du (N / M) L (i / M))
+    (h := fun i => L + du * (i / M - N / M)) hN (by linarith) ?_ ?_ ?_ ?_
+  · intro x h0 hx
+    exact monoConvex_inner L N M dl du x h0 hx
+  · intro x hx _
+    rcases hx.lt_or_eq with h | h
+    · exact monoConvex_above L N M dl du x h
+    · subst h
+      rw [monoConvex_inner L N M dl du N hN.le le_rfl, cvx_end dl du (N / M) L hX]
+      ring
+  · have h := hasDerivAt_comp_div (M := M) (i := N) (cvx_hasDeriv dl du (N / M) L (N / M))
+    rwa [cvx'_end dl du (N / M) L hX] at h
+  · have h := (((hasDerivAt_div_const' M N).sub_const (N / M)).const_mul du).const_add L
+    refine h.congr_deriv ?_; ring
+
 /-! ## sqrt term at the lower end only -/
 
 def eL (a d X L : ℝ) : ℝ := (L - a * √X - d * X) / X ^ 2
@@ -253,6 +320,7 @@ theorem sL_lt (a d X L : ℝ) (hX : 0 < X) (ha : 0 ≤ a) (hd : 0 ≤ d)
     have := mul_pos hend (by positivity : (0 : ℝ) < 2 * √X)
     have e1 : (a / (2 * √X) + d + 2 * e * X) * (2 * √X) = a + 2 * √X * (d + 2 * e * X) := by
       field_simp
+      ring
     linarith
   have hG : 0 < a + 2 * √X * (d + e * (x + y)) := by
     rcases lt_trichotomy e 0 with hneg | hz | hpos
